@@ -32,10 +32,55 @@ def m_be(it, args, callee, depth):
     raise A.Undecided("from_be_bytes on %r" % (arr,))
 
 
+def as_bytes(v, width=4):
+    """A u32 built from u8 channels, as its big-endian byte list — whichever way it is assembled (from_be_bytes / from_le_bytes,
+    whole-byte rotates, or `(r as u32) << 16 | ..`). None when the value is not a byte-aligned assembly of 8-bit values."""
+    if isinstance(v, tuple) and v[0] == "bytes":
+        return list(v[1])
+    if isinstance(v, int):
+        return [(v >> (8 * (width - 1 - i))) & 0xFF for i in range(width)]
+    if isinstance(v, tuple) and v[0] == "sym":
+        return None
+    if isinstance(v, tuple) and v[0] == "symop":
+        if v[1] in ("cast:u32", "cast:u64", "cast:usize", "cast:i32") and isinstance(v[2], tuple) and v[2][0] == "sym":
+            return [0] * (width - 1) + [v[2]]           # an 8-bit channel widened
+        if v[1] in ("cast:u32",):
+            return as_bytes(v[2], width)
+        if v[1] in ("Shl", "Shr") and isinstance(v[3], int) and v[3] % 8 == 0:
+            b = as_bytes(v[2], width)
+            if b is None:
+                return None
+            n = min(v[3] // 8, width)
+            return (b[n:] + [0] * n) if v[1] == "Shl" else ([0] * n + b[:width - n])
+        if v[1] in ("BitOr", "BitXor", "Add"):
+            a, b = as_bytes(v[2], width), as_bytes(v[3], width)
+            if a is None or b is None:
+                return None
+            out = []
+            for x, y in zip(a, b):
+                if x == 0:
+                    out.append(y)
+                elif y == 0:
+                    out.append(x)
+                else:
+                    return None                      # two channels overlap in one byte
+            return out
+    return None
+
+
+def m_le(it, args, callee, depth):
+    arr = A.deref_all(it, args[0])
+    if isinstance(arr, tuple) and arr[0] == "array":
+        return ("bytes", [A.deref_all(it, x) for x in reversed(arr[1])])
+    raise A.Undecided("from_le_bytes on %r" % (arr,))
+
+
 def m_rot(right):
     def f(it, args, callee, depth):
         v = A.deref_all(it, args[0])
         k = args[1]
+        if not (isinstance(v, tuple) and v[0] == "bytes") and as_bytes(v) is not None:
+            v = ("bytes", as_bytes(v))
         if isinstance(v, tuple) and v[0] == "bytes" and isinstance(k, int) and k % 8 == 0:
             n = (k // 8) % len(v[1])
             b = v[1]
@@ -48,7 +93,7 @@ def m_iclamp(it, args, callee, depth):
     return ("symop", "iclamp", A.deref_all(it, args[0]), (A.deref_all(it, args[1]), A.deref_all(it, args[2])))
 
 
-MODELS = {"$u32>::from_be_bytes": m_be, "$u32>::rotate_right": m_rot(True), "$u32>::rotate_left": m_rot(False),
+MODELS = {"$u32>::from_be_bytes": m_be, "$u32>::from_le_bytes": m_le, "$u32>::rotate_right": m_rot(True), "$u32>::rotate_left": m_rot(False),
           "cmp::Ord::clamp": m_iclamp, "$i32>::clamp": m_iclamp}
 
 
@@ -73,13 +118,13 @@ def check_config(rep, prog):
     # ---- K1 packing
     p = COL + "::<[u8; 3], math::color::Rgb>::to_rgb_u32"
     it, r = run(p, [color(["r", "g", "b"])])
-    req(r == ("bytes", [0, sy("r"), sy("g"), sy("b")]), "K1", "rgb_u32", p, "to_rgb_u32 = 0x00_RR_GG_BB", r)
+    req(as_bytes(r) == [0, sy("r"), sy("g"), sy("b")], "K1", "rgb_u32", p, "to_rgb_u32 = 0x00_RR_GG_BB", r)
     p = COL + "::<[u8; 4], math::color::Rgba>::to_rgba_u32"
     it, r = run(p, [color(["r", "g", "b", "a"])])
-    req(r == ("bytes", [sy("r"), sy("g"), sy("b"), sy("a")]), "K1", "rgba_u32", p, "to_rgba_u32 = 0xRR_GG_BB_AA", r)
+    req(as_bytes(r) == [sy("r"), sy("g"), sy("b"), sy("a")], "K1", "rgba_u32", p, "to_rgba_u32 = 0xRR_GG_BB_AA", r)
     p = COL + "::<[u8; 4], math::color::Rgba>::to_argb_u32"
     it, r = run(p, [color(["r", "g", "b", "a"])])
-    req(r == ("bytes", [sy("a"), sy("r"), sy("g"), sy("b")]), "K1", "argb_u32", p, "to_argb_u32 = 0xAA_RR_GG_BB", r)
+    req(as_bytes(r) == [sy("a"), sy("r"), sy("g"), sy("b")], "K1", "argb_u32", p, "to_argb_u32 = 0xAA_RR_GG_BB", r)
     # ---- K2 channel plumbing
     for ty, alpha in (("u8", 255), ("f32", ("f", 1.0))):
         p = COL + "::<[%s; 3], math::color::Rgb>::to_rgba" % ty
@@ -170,7 +215,9 @@ def sector_rules(rep, prog):
     STD = {0: ("c", "x", "0"), 1: ("x", "c", "0"), 2: ("0", "c", "x"), 3: ("0", "x", "c"), 4: ("x", "0", "c"), 5: ("c", "0", "x")}
     tables = {}
     for label, path in (("f32", COL + "::<[f32; 3], math::color::Hsl>::to_rgb"), ("u8", COL + "::<[u8; 3], math::color::Hsl>::to_rgb")):
-        b = prog.body(path)
+        b0 = prog.body(path)
+        # a sextant helper shared by the two siblings is inlined for the selector rule
+        b = prog.inlined(b0, depth=2, pred=lambda cb: cb.path.startswith(C))
         sl = T.Slicer(b)
         sw = [(bi, blk["term"]) for bi, blk in enumerate(b.blocks) if blk["term"]["k"] == "SwitchInt" and len(blk["term"].get("targets", [])) >= 6]
         rep.floor("C16.K6.%s.%s" % (label, cfg), len(sw), 1, "six-way sector switch in %s to_rgb" % label)
@@ -217,7 +264,7 @@ def sector_rules(rep, prog):
             chs = ["h", "s", "l"]
             try:
                 if label == "f32":
-                    r = A.deref_all(it, it.call_body(b, [color(chs)]))
+                    r = A.deref_all(it, it.call_body(b0, [color(chs)]))
                     outs = [A.deref_all(it, x) for x in S.components(it, r)]
                 else:
                     outs = None
